@@ -16,6 +16,7 @@ logged rewrite rules.
 
 A *unit template* (contracts/<unit>.vtmpl) is a Verus file with directives
     //@include <file under /verif>
+    //@include-swap <A> => <B>        later includes of A (at any depth) read B instead
     //@item <src file> <struct|enum|const|type> <Name>     real definition, visibility/attrs stripped
     //@fn <Key>            the real function with its contract and body
     //@decl <Key>          the same contract, body trusted here because it is proved in another unit
@@ -254,7 +255,10 @@ def generic_rules(body):
         recv = re.sub(r'\s+', '', body[recv_start:h.start()])
         if not cm or not recv or re.search(r'\b(return|break|continue)\b|\?', mask(cm.group(3))):
             raise LostAnchor('rule R12: map_or whose receiver/arguments are not `postfix-chain.map_or(literal-or-path, |v| expr)`')
-        edits.append((recv_start, cl + 1, '(match %s { Some(%s) => %s, None => %s })' % (recv, cm.group(2), cm.group(3), cm.group(1)), 'R12'))
+        # the closure body is carried over as text: the call-renaming rules that would have applied inside it are applied here
+        # (overlapping edits keep only the outermost); R11 binary_search -> binary_search_v
+        clos = re.sub(r'\.\s*binary_search\s*\(', '.binary_search_v(', cm.group(3))
+        edits.append((recv_start, cl + 1, '(match %s { Some(%s) => %s, None => %s })' % (recv, cm.group(2), clos, cm.group(1)), 'R12' if clos == cm.group(3) else 'R12+R11'))
     # D12  format!(..) => verif_format()   (a String whose content no contract depends on; prelude/std_extra.rs)
     for h in re.finditer(r'\bformat!\s*\(', m):
         op = h.end() - 1
@@ -977,6 +981,7 @@ class Unit:
         self.prov = []
         self.rewrites = []
         self.fn_spans = []      # dict(key, mode, start, end, contract)
+        self.include_map = {}
         self._expand(self.tmpl_rel, 0)
 
     def _expand(self, rel, depth):
@@ -985,8 +990,13 @@ class Unit:
         path = os.path.join(VERIF, rel)
         for no, ln in enumerate(open(path).read().split('\n'), 1):
             s = ln.strip()
-            if s.startswith('//@include'):
-                self._expand(s.split(None, 1)[1].strip(), depth + 1)
+            if s.startswith('//@include-swap'):
+                # `//@include-swap A => B` (template level): every later `//@include A`, however deeply nested, reads B instead
+                a, b = [x.strip() for x in s.split(None, 1)[1].split('=>')]
+                self.include_map[a] = b
+            elif s.startswith('//@include'):
+                inc = s.split(None, 1)[1].strip()
+                self._expand(self.include_map.get(inc, inc), depth + 1)
             elif s.startswith('//@item '):
                 _, srel, kind, name = s.split()
                 ls, prov = build_item(srel, kind, name, self.rewrites)
